@@ -121,56 +121,33 @@ def _polygon(ctx):
         return
     rep.saw(ab)
     rep.saw(fr)
-    t = Tracer(ab)
-    src, chain = adaptor_chain(t, {'k': 'copy', 'l': 0, 'p': []})
-    names = [c[0] for c in chain]
-    okc = names[:2] == ['sum', 'map'] and all(x in ('sum', 'map', 'iter', 'into_iter', 'deref') for x in names)
-    rep.check(okc, 'R4', 'polygon-area-sums-every-edge', where(ab), 'items.iter().map(term).sum()',
-              'the polygon area does not sum one term per edge: %s' % names)
+    from ..nest import single_loop_sum
+
+    def len_model(sx, st, name, declared, args, t):
+        if name.endswith('Vec::<T, A>::len') or name.endswith('<impl [T]>::len'):
+            v = sx.deep(st, args[0])
+            if v == SYM('self.items'):
+                return SYM('n')
+        return None
+    okc, whyc, info = single_loop_sum(f, ab, models=[len_model])
+    okc = okc and info['source'] == (1, ['items'])
+    rep.check(okc, 'R4', 'polygon-area-sums-every-edge', where(ab), 'area = sum over every edge of self.items of a per-edge term',
+              'the polygon area does not sum one term per edge: %s %s' % (whyc, (info or {}).get('source')))
     if okc:
-        mt = [c for c in chain if c[0] == 'map'][0][1]
-        co = t.origin(mt['args'][1])
-        cb = f.body(co['rv']['closure']) if co['o'] == 'rvalue' and co['rv'].get('agg') == 'closure' else None
-        ok = False
-        why = 'edge-term closure not found'
-        if cb is not None:
-            rep.saw(cb)
-            n = Norm()
-            sx = SymEx(f)
-            outs = sx.run(cb, [SYM('env'), SYM('p')])
-            if len(outs) == 1 and not sx.aborted:
-                try:
-                    got = n.rf(outs[0].ret)
-                    sxx, syy = n.atom('p.start.x'), n.atom('p.start.y')
-                    exx, eyy = n.atom('p.end.x'), n.atom('p.end.y')
-                    T = n.atom('env.0')
-                    ref = n.const(Fraction(1, 2)) * T * n.fn('sqrt', sxx * sxx + syy * syy) * n.fn('sqrt', exx * exx + eyy * eyy)
-                    ok = got.equals(ref)
-                    why = 'term = %s' % got.canon()[:200]
-                except NotNumeric as ex:
-                    why = str(ex)[:100]
-        rep.check(ok, 'R4', 'edge-term-is-half-sin-times-radii', where(ab), '1/2 * angle_term * |start| * |end|', why)
-        # captured angle term = sin(2 pi / len(items))
-        cap = co['rv']['ops'][0] if co['o'] == 'rvalue' and co['rv'].get('ops') else None
-        okT = False
-        whyT = 'captured angle term not found'
-        if cap is not None:
-            def leaf(o):
-                if o['o'] == 'call' and call_matches(o['term'], 'Vec::<T, A>::len'):
-                    r = t.origin(o['term']['args'][0])
-                    if r['o'] == 'arg' and field_path(r['p']) == ['items']:
-                        return SYM('n')
-                return None
-            capo = t.origin(cap)
-            # capture is by reference to the local angle_term
-            e = lift(t, {'k': 'copy', 'l': capo['l'], 'p': []}, leaf) if capo.get('l') is not None and capo['o'] in ('call', 'rvalue', 'local') else lift(t, cap, leaf)
-            n2 = Norm()
-            try:
-                okT = e is not None and n2.rf(e).equals(n2.fn('sin', n2.const(2 * PI) / n2.atom('n')))
-                whyT = 'angle_term = %s' % (n2.rf(e).canon() if e is not None else None)
-            except NotNumeric as ex:
-                whyT = str(ex)[:100]
-        rep.check(okT, 'R4', 'angle-term-is-sin-2pi-over-n', where(ab), 'sin(2*pi / items.len())', whyT)
+        n = info['norm']
+        it = info['item']
+        ok = len(info['terms']) == 1 and not [c for c in info['terms'][0][0] if c[0] != 'assume']
+        why = 'the per-edge term is conditional'
+        if ok:
+            got = info['terms'][0][1]
+            sxx, syy = n.atom(it + '.start.x'), n.atom(it + '.start.y')
+            exx, eyy = n.atom(it + '.end.x'), n.atom(it + '.end.y')
+            T = n.fn('sin', n.const(2 * PI) / n.atom('n'))
+            ref = n.const(Fraction(1, 2)) * T * n.fn('sqrt', sxx * sxx + syy * syy) * n.fn('sqrt', exx * exx + eyy * eyy)
+            ok = got.equals(ref)
+            why = 'term = %s' % got.canon()[:200]
+        rep.check(ok, 'R4', 'edge-term-is-half-sin-times-radii', where(ab), '1/2 * sin(2*pi / items.len()) * |start| * |end|', why)
+        rep.check(ok, 'R4', 'angle-term-is-sin-2pi-over-n', where(ab), 'the angle factor of the term is sin(2*pi / items.len())', why)
     # from_radial parametrisation
     tr = Tracer(fr)
     cfg = CFG(fr)
